@@ -39,6 +39,8 @@ def run(ctx):
                 "keepalive tokens (PING / PONG with and without a number, written by sendPING / sendPONG or by the keepalive timer) at "
                 "token boundaries of the stream (front / between objects / index phase / before CLOSE / behind bodies / everywhere / "
                 "bursts), packed alone, glued to the 1..100 bytes behind them, or at the tail of a packet; "
+                "one still-pending immutable (open ancestor tuple / tuple or frozenset closed while waiting) mentioned by several "
+                "referrers (list slot, dict value, set member, tuple slot, frozenset member) in every order of first and later kind; "
                 "non-trivial = distinct canonical term with at least one container that was sent, received and compared")
     ctx.assumptions = [
         "text is modelled as its UTF-8 byte string and floats as their 8 bytes: str.encode/decode('UTF-8') and struct.pack/unpack('!d') "
@@ -180,6 +182,21 @@ def run(ctx):
     for name, argsets in shared_through_copyable_calls(I):
         call_case(ctx, I, name, argsets, coq_cases, vi=None, chunk="one")
         call_case(ctx, I, name + "/bytewise", argsets, coq_cases, vi=1, chunk="bytewise")
+
+    # ---- 5d. SEVERAL referrers of one immutable that is still pending (an open ancestor tuple, or a tuple closed while it waits for
+    # one): every referrer kind that can take a Deferred (list slot / dict value / set member / tuple slot / frozenset member) adds a
+    # callback to the SAME Deferred; each callback must hand the object on to the next (fixed witnesses: every kind as the FIRST
+    # referrer followed by every kind; thorough: every ordered pair on its own, the same container twice, random sequences)
+    for name, g in pending_referrer_graphs(I, full=ctx.tier == "thorough"):
+        roundtrip_case(ctx, I, name, [g], vocab_v1() if "/in-list" in name else None, coq_cases, corpus=True)
+    for name, argsets in pending_referrer_calls(I):
+        call_case(ctx, I, name, argsets, coq_cases, vi=None, chunk="one")
+        call_case(ctx, I, name + "/bytewise", argsets, coq_cases, vi=1, chunk="bytewise")
+    for i in range(ctx.n(8, 400)):
+        kinds = [rng.choice(REFERRER_KINDS) for _ in range(rng.choice([2, 2, 3, 4, 6]))]
+        g = pending_referrer_graph(I, rng.choice(PENDING_TARGETS), kinds, rng.choice(PENDING_ROOTS), nest=[rng.randrange(3) for _ in kinds],
+                                   cls=rng.choice(I.COPYABLES))
+        roundtrip_case(ctx, I, "pending-random%d/%s" % (i, "+".join(kinds)), [g], vocab_v1() if rng.random() < 0.3 else None, coq_cases)
 
     # ---- 6. correspondence with the Coq model
     if model_ok:
@@ -387,6 +404,88 @@ def long_name_calls(I):
     return out
 
 
+PENDING_SIG = "several-referrers-of-one-pending-immutable/"      # one Deferred, several update callbacks: a later referrer lost the object
+REFERRER_KINDS = ("list", "dict-value", "set", "tuple", "frozenset")      # the positions that accept a not-yet-complete immutable
+PENDING_TARGETS = ("open-tuple", "closed-pending-tuple", "closed-pending-frozenset")
+PENDING_ROOTS = ("tuple-root", "in-list", "in-dict")
+
+
+def _referrer(kind, target, tag, nest=0):
+    """a fresh container of `kind` that mentions `target` (nest: wrapped in that many lists, so that the mention sits deeper)"""
+    if kind == "list":
+        r = [tag, target]
+    elif kind == "dict-value":
+        r = {"k": target, "tag": tag}
+    elif kind == "set":
+        r = {target}
+    elif kind == "tuple":
+        r = (target, tag)
+    else:
+        r = frozenset([target])
+    for _ in range(nest):
+        r = [r]
+    return r
+
+
+def pending_referrer_graph(I, target, kinds, root, nest=None, cls=None):
+    """T = (c, 0) with c a registered Copyable whose attribute `refs` is a LIST of containers (one per entry of `kinds`, in that
+    order) that all mention the same immutable X while X is still pending on the receiving side:
+      open-tuple: X = T itself (open while its descendants arrive);
+      closed-pending-tuple / -frozenset: X = (T, 9) / frozenset([T]), sliced inline at its first mention (closed, waiting for T)
+      and referenced (tuple) or sliced again (frozenset: not reference-tracked) by the later ones.
+    The cycle goes through a Copyable so that X is hashable and can be a set / frozenset member too."""
+    c = (cls or I.CA)()
+    T = (c, 0)
+    X = T if target == "open-tuple" else (T, 9) if target == "closed-pending-tuple" else frozenset([T])
+    nest = nest or [0] * len(kinds)
+    c.refs = [_referrer(k, X, 100 + i, nest[i]) for i, k in enumerate(kinds)]
+    c.tail = "end"
+    if root == "in-list":
+        return [T, 1]
+    if root == "in-dict":
+        return {"t": T}
+    return T
+
+
+def pending_referrer_graphs(I, full=False):
+    out = []
+    for ti, target in enumerate(PENDING_TARGETS):
+        for ki, first in enumerate(REFERRER_KINDS):
+            # `first` registers its callback first; after it one referrer of every kind (rotated, so each ordered pair also occurs adjacent)
+            rest = list(REFERRER_KINDS[ki:] + REFERRER_KINDS[:ki])
+            root = PENDING_ROOTS[(ti + ki) % len(PENDING_ROOTS)]
+            out.append(("pending-%s/%s-then-all/%s" % (target, first, root), pending_referrer_graph(I, target, [first] + rest, root)))
+    if full:
+        for target in PENDING_TARGETS:
+            for ri, root in enumerate(PENDING_ROOTS):
+                for a in REFERRER_KINDS:
+                    for b in REFERRER_KINDS:
+                        out.append(("pending-%s/%s-then-%s/%s" % (target, a, b, root),
+                                    pending_referrer_graph(I, target, [a, b], root, nest=[ri % 2, (ri + 1) % 2], cls=I.COPYABLES[ri])))
+    # the same container mentions it twice (or three times); a list root instead of the Copyable (no set possible: unhashable)
+    for target in PENDING_TARGETS[:2] if not full else PENDING_TARGETS:
+        c = I.CB(); T = (c, 0)
+        X = T if target == "open-tuple" else (T, 9) if target == "closed-pending-tuple" else frozenset([T])
+        c.refs = [[X, X], {"a": X, "b": X, "c": X}, (X, X), [X]]
+        out.append(("pending-%s/same-container-twice" % target, T))
+    L = []; T = (L, 0); L.extend([[T, T], {"a": T, "b": T}, (T, 1), (T, T), [T]])
+    out.append(("pending-open-tuple/list-cycle/same-container-twice", T))
+    L = []; T = (L, 0); U = (T, 9); L.extend([[U, U], {"a": U, "b": U}, (U, 1), [U]])
+    out.append(("pending-closed-pending-tuple/list-cycle/same-container-twice", T))
+    return out
+
+
+def pending_referrer_calls(I):
+    """the same inside a call scope (the open tuple cannot be an argument itself: a Deferred child of the arguments scope is refused)"""
+    out = []
+    for ki, first in enumerate(REFERRER_KINDS):
+        rest = list(REFERRER_KINDS[ki:] + REFERRER_KINDS[:ki])
+        g1 = pending_referrer_graph(I, PENDING_TARGETS[ki % 3], [first] + rest, "in-list")
+        g2 = pending_referrer_graph(I, PENDING_TARGETS[(ki + 1) % 3], [first] + rest[::-1], "in-dict")
+        out.append(("call-pending/%s-first" % first, [((g1, 7), {"kw": g2}), ((g2,), {})]))
+    return out
+
+
 def sig_for_failure(kind, text, hazards):
     """stable signature for a failed round trip"""
     if kind == "send":
@@ -458,7 +557,8 @@ def roundtrip_case(ctx, I, name, objs, voc, coq_cases, corpus=False):
         d = I.oracle_iso(objs, got)
         if d:
             ok_all = False
-            ctx.fail("oracle/" + oracle_sig(d, I, terms), "round trip changed the graph (chunking %s): %s; graph: %s" % (how, d, " ; ".join(key)[:700]),
+            ctx.fail("oracle/" + (PENDING_SIG + oracle_sig(d) if name.startswith("pending-") else oracle_sig(d, I, terms)),
+                     "round trip changed the graph (chunking %s): %s; graph: %s" % (how, d, " ; ".join(key)[:700]),
                      replay=dict(case=name, term=key, chunking=how, cuts=cuts[:50], difference=d, data=data.hex()[:4000]))
             break
         # no object of the received graph is an object of the sent graph (a copy, not the original)
@@ -1228,7 +1328,8 @@ def call_case(ctx, I, name, argsets, coq_cases, vi=None, chunk=None, preludes=()
     for (a, kw), (ra, rkw) in zip(argsets, P.target.calls):
         d = I.oracle_iso([list(a), kw], [list(ra), rkw])
         if d:
-            ctx.fail("oracle/call/" + oracle_sig(d) + katag if not I.tuple_ref_after_dict_value_ref(terms, n0)
+            ctx.fail("oracle/call/" + PENDING_SIG + oracle_sig(d) if name.startswith("call-pending/") else
+                     "oracle/call/" + oracle_sig(d) + katag if not I.tuple_ref_after_dict_value_ref(terms, n0)
                      else "oracle/graph-changed/tuple-ref-after-dict-value-ref", kahist + "arguments of a call changed in transit: %s; call: %s" % (d, shape),
                      replay=dict(case=name, args=repr((a, kw))[:1500], terms=shape))
             return
